@@ -605,3 +605,8 @@ PROPS["C06"]["level_text"] += (" add_threads() (loop contract, any number of wor
 PROPS["C06"]["not_decided"] = ["interleaving semantics beyond the lock-discipline argument; deadlock freedom / lost wake-ups (liveness)",
                                "detached pools are a recorded known finding", "the running_tasks counter is updated outside the mutex (statistics only; not covered by an obligation)",
                                "allocation failure of a thread slot in add_threads (passed on to pthread_create unchecked)"]
+U("ps.unsubscribe", src="units/ps_unit.c", harness="h_unsubscribe", enforce="m_mod_ps_unsubscribe", defines=["V_UNSUB_UNIT"], logctx="CORE",
+  replace=["m_ctx", "m_mod_is", "fetch_ms", "m_map_remove", "m_map_len", "m_map_free"], props=["C09", "C15", "C18", "C04"], contract_files=SUBSC, native=False, timeout=300, min_obligations=20)
+
+PROPS["C09"]["level_text"] += " m_mod_ps_unsubscribe(): exactly one removal under the caller's topic; a present subscription goes (and the table with the last one), an absent one fails without effect."
+PROPS["C09"]["not_decided"] = ["that the BST behind the abstract keyed set is a set for > K nodes (C11 is bounded)", "one-shot removal in recv_events for batches of more than 2 events (bounded stand-in)"]
